@@ -370,8 +370,23 @@ func VerifC11AdvanceRequests() {
 	conn := &zzConn{name: "ctl", closeCh: make(chan struct{})}
 	ctl, err := NewControl(context.Background(), svr.rc, svr.pxyManager, svr.pluginManager, svr.authVerifier, conn, false, &msg.Login{RunID: "r1", PoolCount: pc}, svr.cfg)
 	zzverif.Assume(err == nil)
+	queuedAtAck := -1
+	conn.onWrite = func(m msg.Message) {
+		if _, ok := m.(*msg.LoginResp); ok && queuedAtAck < 0 {
+			queuedAtAck = len(ctl.msgDispatcher.SendChannel())
+		}
+	}
 	ctl.Start()
 	zzverif.Quiesce()
+	// nothing is queued for the client before the login response is on the wire: whatever is queued
+	// can overtake it
+	zzverif.Assert(queuedAtAck == 0, "C17.advance.nothing-queued-for-the-client-before-the-login-response")
+	// the answer to the login is the first thing the client finds on the connection (it is sent in
+	// clear, what follows comes through the session's cipher)
+	if len(conn.written) > 0 {
+		_, first := conn.written[0].(*msg.LoginResp)
+		zzverif.Assert(first, "C17.advance.login-response-is-the-first-message-on-the-wire")
+	}
 	// everything queued for the client so far: the login response went out directly, the rest through the dispatcher
 	reqs := 0
 	for _, m := range conn.written {
